@@ -1,6 +1,7 @@
 import RichModel.Model.Text
 import RichModel.Model.TextStr
 import RichModel.Model.TextFrag
+import RichModel.Model.TextTabs
 import RichModel.Gen.CellWidths
 import RichModel.Drv.Proto
 /-
@@ -279,7 +280,7 @@ def handlers : List (String × (List String → String)) := [
     | [m, w, c] => do pure (ansText (.ok (t.align v cw (← decAlign? m) (← decInt? w) (← decChar? c))))
     | _ => none),
   ("text_expand_tabs", h1 fun v t a => match a with
-    | [ts] => do pure (ansText (t.expandTabs v (← decOptNat? ts)))
+    | [ts] => do pure (ansText (t.expandTabs v (Text.effTab Text.tabAssertAsFound t (← decOptNat? ts))))
     | _ => none),
   ("text_remove_suffix", h1 fun v t a => match a with
     | [s] => do pure (ansText (.ok (t.removeSuffix v (← decStr? s))))
@@ -297,7 +298,10 @@ def handlers : List (String × (List String → String)) := [
     | _ => none),
   ("text_detect_indentation", h1 fun _ t _ => some (toString t.detectIndentation)),
   ("text_indent_guides", h1 fun v t a => match a with
-    | [size, ch, st] => do pure (ansText (t.withIndentGuides v 0 (← decOptNat? size) (← decStr? ch) (← decNat? st)))
+    | [size, ch, st] => do
+      -- fix 7535af5: the `expand_tabs()` inside falls back to 8 when the text has no tab size (Model/TextTabs); the result is a fresh Text
+      let t' : Text Nat := { t with tabSize := Text.effTab Text.tabAssertAsFound t t.tabSize }
+      pure (ansText (t'.withIndentGuides v 0 (← decOptNat? size) (← decStr? ch) (← decNat? st)))
     | _ => none),
   ("text_render", h1 fun _ t a => match a with
     | [e] => do pure (encRender (t.render (← decStr? e)))
